@@ -133,6 +133,7 @@ def run(chk):
     if not need <= kinds:
         raise MachineryError("vacuous generator: %s" % sorted(kinds))
     count_mismatch(chk, ureg)
+    signature_shapes(chk, ureg)
     bundled(chk, rng, 800 if chk.tier == "thorough" else 200)
     return chk.finish(
         rule="cases = states of MC_C17 (specification, arguments, number of positional arguments, strictness / return specification / check "
@@ -143,6 +144,44 @@ def run(chk):
 
 def _unused():
     pass
+
+
+def signature_shapes(chk, ureg):
+    """signatures beyond the plain positional ones: a default before keyword-only parameters, keyword-only parameters with and without
+    defaults; and references naming several arguments ('=A/B', '=A*B**2') - received magnitudes and the derived return unit"""
+    Q = ureg.Quantity
+    ns = {"D": Q(F(1), "m"), "REC": []}
+    exec("def f(a, b=D, *, c, d=7):\n    REC.append((a, b, c, d))\n    return 0", ns)
+    for deco, spec in (("wraps", (None, ("m", "cm", "s", None))), ("check", ("[L]", "[L]", "[T]", None))):
+        chk.case(("signature-shape", deco))
+        try:
+            w = ureg.wraps(*spec)(ns["f"]) if deco == "wraps" else ureg.check(*spec)(ns["f"])
+            w(Q(F(2), "m"), c=Q(F(3), "s"))
+            got = ns["REC"][-1]
+            want = (F(2), F(100), F(3), 7) if deco == "wraps" else (Q(F(2), "m"), Q(F(1), "m"), Q(F(3), "s"), 7)
+            ok = tuple(got) == want
+        except Exception as e:
+            chk.diverge({"clause": "signature-shape-raises", "decorator": deco, "exc": type(e).__name__}, {"signature": "f(a, b=1 m, *, c, d=7)", "error": repr(e)[:200]})
+            continue
+        if not ok:
+            chk.diverge({"clause": "signature-shape", "decorator": deco}, {"signature": "f(a, b=1 m, *, c, d=7)", "received": [str(x) for x in got]})
+    for ret, args, call, want_recv, want_ret in (
+            ("=A/B", ("=A", "=B"), (Q(F(6), "m"), Q(F(2), "s")), (F(6), F(2)), {"m": 1, "s": -1}),
+            ("=A*B**2", ("=A", "=B"), (Q(F(6), "m"), Q(F(2), "s")), (F(6), F(2)), {"m": 1, "s": 2}),
+            ("=A**2*B", ("=A", "=B"), (Q(F(6), "cm"), Q(F(2), "s")), (F(6), F(2)), {"cm": 2, "s": 1}),
+            (None, ("=A", "=B", "=A/B"), (Q(F(6), "m"), Q(F(2), "s"), Q(F(300), "cm / s")), (F(6), F(2), F(3)), None),
+            (None, ("=A", "=B", "=A*B**2"), (Q(F(6), "m"), Q(F(2), "s"), Q(F(5), "m * s ** 2")), (F(6), F(2), F(5)), None)):
+        chk.case(("multi-name-reference", repr(ret), repr(args)))
+        rec = []
+        g = (lambda p1, p2: (rec.append((p1, p2)), 11)[1]) if len(args) == 2 else (lambda p1, p2, p3: (rec.append((p1, p2, p3)), 11)[1])
+        try:
+            r = ureg.wraps(ret, args)(g)(*call)
+            ok = tuple(F(x) for x in rec[-1]) == want_recv and (want_ret is None or (hasattr(r, "units") and r.magnitude == 11 and {k: int(v) for k, v in r.unit_items()} == want_ret))
+        except Exception as e:
+            chk.diverge({"clause": "multi-name-reference-raises", "exc": type(e).__name__}, {"ret": ret, "args": args, "error": repr(e)[:200]})
+            continue
+        if not ok:
+            chk.diverge({"clause": "multi-name-reference"}, {"ret": ret, "args": args, "received": [str(x) for x in rec[-1]], "returned": str(r)})
 
 
 def count_mismatch(chk, ureg):
